@@ -155,13 +155,17 @@ var QueryCalls int
 //@ end
 
 //@ func (*MultiOpQueryer).fetchFile
+//@ props C11 C09 C07
 //@ returns resp, err
-//@ trusted protocol boundary: multipart upload over HTTP, extractFiles decides FileReq
-//@ ensures err == nil && resp == nil ==> !FileReq(input)
-//@ ensures err == nil && resp != nil ==> FileReq(input) && fresh(resp)
-//@ ensures err == nil && resp != nil && len(resp.Errors) == 0 ==> Ans(input, resp.Data)
-//@ ensures gqlerrors.nonvacuous(err)
-//@ modifies entries(map[string]interface{}), elems(interface{}), global(LastStatus), all(MultiOpQueryer.client)
+//@ requires q != nil && forall(k, 0, len(q.mdwares), q.mdwares[k] != nil)
+// which requests are file requests, and what the service answers, is the protocol boundary (ghosts FileReq, Ans)
+//@ assumes-post err == nil && resp == nil ==> !FileReq(input)
+//@ assumes-post err == nil && resp != nil ==> FileReq(input)
+//@ assumes-post err == nil && resp != nil && len(resp.Errors) == 0 ==> Ans(input, resp.Data)
+//@ ensures[fresh] err == nil && resp != nil ==> fresh(resp)
+//@ ensures[status-checked] err == nil && resp != nil ==> 200 <= LastStatus && LastStatus <= 299
+//@ ensures[errkind] gqlerrors.nonvacuous(err)
+//@ modifies-assumed fresh, entries(map[string]interface{}), elems(interface{}), global(LastStatus), all(MultiOpQueryer.client)
 //@ end
 
 //@ func (*MultiOpQueryer).sendQueryRequest
@@ -186,12 +190,14 @@ var QueryCalls int
 //@ extern mime/multipart (*Writer).CreateFormField
 //@ returns fw, err
 //@ ensures err == nil ==> fw != nil
+//@ ensures gqlerrors.nonvacuous(err)
 //@ modifies-assumed fresh
 //@ end
 
 //@ extern mime/multipart (*Writer).CreateFormFile
 //@ returns fw, err
 //@ ensures err == nil ==> fw != nil
+//@ ensures gqlerrors.nonvacuous(err)
 //@ modifies-assumed fresh
 //@ end
 
@@ -209,7 +215,8 @@ var QueryCalls int
 //@ end
 
 //@ func extractFiles
-//@ props C07 C09
+//@ props C07 C09 C11
+//@ ensures[map] result != nil
 //@ end
 
 //@ func (*UploadMap).extract
@@ -218,10 +225,16 @@ var QueryCalls int
 //@ end
 
 //@ func prepareMultipart
-//@ props C07 C09
+//@ props C07 C09 C11
+//@ returns body, contentType, err
+//@ ensures[errkind] gqlerrors.nonvacuous(err)
 //@ end
 
 //@ func (*MultiOpQueryer).sendMultipartRequest
-//@ props C07 C09
+//@ props C07 C09 C11
+//@ returns body, err
 //@ requires q != nil && forall(k, 0, len(q.mdwares), q.mdwares[k] != nil)
+//@ ensures[status-checked] err == nil ==> 200 <= LastStatus && LastStatus <= 299
+//@ ensures[errkind] gqlerrors.nonvacuous(err)
+//@ modifies-assumed fresh, global(LastStatus), q.client
 //@ end
